@@ -346,20 +346,10 @@ theorem timeout_then_same_stream (s s' : St) (op : Op) (hop : op.isRead = true)
   obtain ⟨_, _, x, h1, h2⟩ := timeout_consumes_nothing s s' op hop h
   rw [h1, List.append_assoc, h2]
 
-/-! ### `read_until_timeout` returns at most `n` bytes — true for TCP and serial, false for UDP
-
-Full statement (FALSE for the UDP transport of the pinned tree, see the witness below and
-known_findings.d/C13.json):
-
-    theorem readUntilTimeout_le_n (s s' : St) (n : Nat) (t : Option Int) (bs : Bytes)
-        (h : step s (.readUntilTimeout n t) = (s', .ret bs)) : bs.length ≤ n
--/
-
-/-- proved part: every transport that is not a datagram socket with a minimum receive size.
-Missing for the full statement: `s.kind ≠ .udp` (and `MIN_PACKET_SIZE = 0` for the stream socket, which the
-harness checks against the live class on every run). -/
-theorem readUntilTimeout_le_n_partial (s s' : St) (n : Nat) (t : Option Int) (bs : Bytes)
-    (hk : s.kind ≠ .udp) (hm : s.kind = .tcp → s.minP = 0)
+/-- **`read_until_timeout(n)` returns at most `n` bytes** — every transport kind (TCP, UDP, serial), every
+value of the packet-size constants, every script.  (False for UDP on the pinned tree 04de7e7, where the
+time-out branch handed out the whole buffer; repaired by commit 916a4b4, which this model mirrors.) -/
+theorem readUntilTimeout_le_n (s s' : St) (n : Nat) (t : Option Int) (bs : Bytes)
     (h : step s (.readUntilTimeout n t) = (s', .ret bs)) : bs.length ≤ n := by
   simp only [step] at h
   split at h
@@ -383,35 +373,23 @@ theorem readUntilTimeout_le_n_partial (s s' : St) (n : Nat) (t : Option Int) (bs
         have := hfin s1 rfl
         rw [← h.2]; omega
       | _ => simp at h
-  · -- stream socket
-    rename_i hser
-    have hk' : s.kind = .tcp := by
-      cases hkk : s.kind <;> simp_all
-    have := sockRut_le s n t hk (hm hk')
+  · -- socket family (stream and datagram)
+    have := sockRut_le s n t
     rw [h] at this
     exact this bs rfl
 
-theorem readUntilTimeout_le_n_tcp (s s' : St) (n : Nat) (t : Option Int) (bs : Bytes)
-    (hk : s.kind = .tcp) (hm : s.minP = 0)
-    (h : step s (.readUntilTimeout n t) = (s', .ret bs)) : bs.length ≤ n :=
-  readUntilTimeout_le_n_partial s s' n t bs (by rw [hk]; decide) (fun _ => hm) h
+/-- On a time-out the socket transports hand out the *first* `n` buffered bytes and keep the rest: the
+datagram that overshot the request is still there for the next call. -/
+theorem readUntilTimeout_keeps_rest (s s1 : St) (n : Nat) (t : Option Int) (hk : s.kind ≠ .serial)
+    (h : sockRead s n t = (s1, .exc .timeout)) :
+    step s (.readUntilTimeout n t) = ({ s1 with buf := s1.buf.drop n, log := s1.log ++ [(Tag.ret, s1.buf.take n)] },
+                                      .ret (s1.buf.take n)) := by
+  simp only [step, hk, if_false, sockRut, h, takeBuf]
 
-theorem readUntilTimeout_le_n_serial (s s' : St) (n : Nat) (t : Option Int) (bs : Bytes)
-    (hk : s.kind = .serial)
-    (h : step s (.readUntilTimeout n t) = (s', .ret bs)) : bs.length ≤ n :=
-  readUntilTimeout_le_n_partial s s' n t bs (by rw [hk]; decide) (fun h' => by rw [hk] at h'; cases h') h
-
-/-- the witness replayed on the real `QMI_UdpTransport` by harness/props/c13.py: an open UDP transport,
-a 3-byte datagram delivered after one tick, `read_until_timeout(1, 0)` -/
+/-- an open UDP transport, a 3-byte datagram delivered after one tick (used by the examples below; on the
+pinned tree `read_until_timeout(1, 0)` returned all three bytes from this state) -/
 def udpWitness : St :=
   { init .udp 4096 4096 with isOpen := true, dev := [⟨1, .data [1, 2, 3]⟩] }
-
-/-- **negation of the full statement for UDP**: `read_until_timeout(1, 0)` returns 3 bytes. -/
-theorem readUntilTimeout_le_n_udp_false :
-    ∃ (s : St) (n : Nat) (t : Option Int) (bs : Bytes),
-      s.kind = .udp ∧ s.minP = 4096 ∧ s.maxP = 4096 ∧
-      (step s (.readUntilTimeout n t)).2 = .ret bs ∧ n < bs.length :=
-  ⟨udpWitness, 1, some 0, [1, 2, 3], rfl, rfl, rfl, by decide, by decide⟩
 
 /-- `discard_read` on an open transport leaves the read buffer empty (whatever was buffered went to the
 discard log, in stream order — see `conservation_step`). -/
@@ -438,8 +416,10 @@ theorem readUntilTimeout_no_timeout (s : St) (n : Nat) (t : Option Int) :
     obtain ⟨s1, o⟩ := r
     cases o with
     | exc e =>
-      cases e <;> simp [takeAll]
-      split <;> simp
+      cases e with
+      | timeout => simp [takeBuf]
+      | eof => simp only; split <;> simp [takeAll]
+      | _ => simp
     | _ => simp
 
 /-! ## a closed transport never touches the device; open/close state machine -/
@@ -567,9 +547,13 @@ example : (step { init .udp 2 2 with isOpen := true, dev := [⟨0, .data [1, 2, 
 example : (step { init .serial 0 0 with isOpen := true, dev := [⟨5, .timeout⟩] } (.read 1 none)).2 = .exc .exhausted := by
   decide
 
--- `readUntilTimeout_le_n_partial`: a TCP call that returns the partial buffer after the deadline passed
+-- `readUntilTimeout_le_n`: a TCP call that returns the partial buffer after the deadline passed
 example : (step { init .tcp 0 512 with isOpen := true, buf := [7], dev := [⟨9, .data [8, 9]⟩] }
             (.readUntilTimeout 5 (some 2))).2 = .ret [7, 8, 9] := by decide
+
+-- `readUntilTimeout_le_n` / `readUntilTimeout_keeps_rest` on UDP: one byte returned, the other two stay buffered
+example : (step udpWitness (.readUntilTimeout 1 (some 0))).2 = .ret [1]
+    ∧ (step udpWitness (.readUntilTimeout 1 (some 0))).1.buf = [2, 3] := by decide
 
 -- `conservation_udp`: `Fits` is satisfiable by a non-trivial script (4096-byte limit, 3-byte datagram)
 example : Fits udpWitness := by
